@@ -80,7 +80,14 @@ struct Event {
 struct Case {
   Def def;
   std::vector<Event> events;
+  int tz = 0;   // index into kZones: the time zone of the process (date/time fields show local time)
 };
+// fixed-offset POSIX zones (no daylight saving rule), so that the model can compute local time without the C library:
+// local time = UTC + offset
+struct Zone { const char *posix; int offset; };
+const Zone kZones[] = {{"UTC0", 0}, {"CET-1", 3600}, {"EST5", -5 * 3600}, {"NZST-12", 12 * 3600}, {"IST-5:30", 19800}, {"MART9:30", -34200}};
+const int kZoneCount = 6;
+int gTzOffset = 0;   // offset of the case under evaluation
 
 // ------------------------------------------------------------------ independent renderer
 const char *const kLevelText[7] = {"undefined", "Fatal Error", "Error", "Warning", "Info", "Debug", "Full Debug"};
@@ -90,10 +97,18 @@ struct Civil {
   long long year;
   int month, day, hour, min, sec, yday /*1..*/, wday /*0=Sunday*/;
 };
-// proleptic Gregorian calendar from seconds since 1970-01-01T00:00:00Z (ts >= 0), no library calls
+// proleptic Gregorian calendar from seconds since 1970-01-01T00:00:00 (local seconds; slightly negative values occur west
+// of Greenwich), no library calls
 Civil civilFromTs(int64_t ts) {
   Civil c;
   int64_t days = ts / 86400, rem = ts % 86400;
+  if (rem < 0) { rem += 86400; --days; }
+  if (days < 0) {   // 1969
+    c.hour = static_cast<int>(rem / 3600); c.min = static_cast<int>(rem % 3600 / 60); c.sec = static_cast<int>(rem % 60);
+    c.wday = static_cast<int>(((days + 4) % 7 + 7) % 7);
+    c.year = 1969; c.yday = 365 + static_cast<int>(days) + 1; c.month = 12; c.day = 31 + static_cast<int>(days) + 1;
+    return c;
+  }
   c.hour = static_cast<int>(rem / 3600); c.min = static_cast<int>(rem % 3600 / 60); c.sec = static_cast<int>(rem % 60);
   c.wday = static_cast<int>((days + 4) % 7);
   long long y = 1970;
@@ -116,7 +131,7 @@ std::string two(int v) { char b[8]; snprintf(b, sizeof b, "%02d", v); return b; 
 std::string renderTime(const std::string &fmt, int64_t ts) {
   static const char *const wd[] = {"Sun", "Mon", "Tue", "Wed", "Thu", "Fri", "Sat"};
   static const char *const mn[] = {"Jan", "Feb", "Mar", "Apr", "May", "Jun", "Jul", "Aug", "Sep", "Oct", "Nov", "Dec"};
-  const Civil c = civilFromTs(ts);
+  const Civil c = civilFromTs(ts + gTzOffset);
   std::string o;
   for (size_t i = 0; i < fmt.size(); ++i) {
     if (fmt[i] != '%' || i + 1 >= fmt.size()) { o += fmt[i]; continue; }
@@ -409,6 +424,22 @@ size_t play(Ctx &x, size_t pos, int depth, long /*myScope*/) {
 
 std::string runCase(const Case &c) {
   auto &st = stats();
+  setenv("TZ", kZones[c.tz].posix, 1);
+  tzset();
+  gTzOffset = kZones[c.tz].offset;
+  if (c.tz) st.cls("tz.not_utc");
+  {
+    bool dateField = false;
+    for (auto &it : c.def.items) if (it.kind == K_DATE || it.kind == K_DATETIME) dateField = true;
+    const Msg *prev = nullptr;
+    auto fl = [](int64_t v) { return v >= 0 ? v / 86400 : -((-v + 86399) / 86400); };
+    for (auto &e : c.events) {
+      if (e.kind != E_LOG) continue;
+      if (prev && dateField && fl(prev->ts) == fl(e.msg.ts) && fl(prev->ts + gTzOffset) != fl(e.msg.ts + gTzOffset)) st.cls("tz.same_utc_day_other_local_day");
+      if (prev && dateField && fl(prev->ts) != fl(e.msg.ts) && fl(prev->ts + gTzOffset) == fl(e.msg.ts + gTzOffset)) st.cls("tz.other_utc_day_same_local_day");
+      prev = &e.msg;
+    }
+  }
   (void)cl::Logging::instance();
   cl::Logging::reset();
   clf::Definition def;
@@ -463,6 +494,7 @@ int lookup(const std::string &k, const char *const *names, int n, const char *wh
 std::string showCase(const Case &c) {
   Writer w;
   w.tag("logformat").nl();
+  if (c.tz) w.tag("tz").u(static_cast<uint64_t>(c.tz)).nl();
   w.tag("def").u(c.def.ctorSep).s(c.def.sep).u(c.def.items.size()).nl();
   for (auto &it : c.def.items)
     w.tag("item").tag(kKindNames[it.kind]).s(it.s).u(it.width).u(it.left).u(it.widthFirst).s(it.fmt).u(it.viaMethod).nl();
@@ -483,7 +515,9 @@ std::string showCase(const Case &c) {
 Case parseCase(const std::string &t) {
   Reader r(t);
   Case c;
-  r.tag(); r.tag();
+  r.tag();
+  if (r.peek() == "tz") { r.tag(); c.tz = static_cast<int>(r.u()); if (c.tz >= kZoneCount) throw std::runtime_error("bad zone"); }
+  r.tag();
   c.def.ctorSep = r.u() != 0; c.def.sep = r.s();
   size_t n = r.u();
   for (size_t i = 0; i < n; ++i) {
@@ -645,6 +679,17 @@ rc::Gen<Msg> genMsg() {
 rc::Gen<Case> genCaseRaw() {
   return rc::gen::exec([]() {
     Case c;
+    c.tz = *rc::gen::weightedElement<int>({{4, 0}, {2, 1}, {2, 2}, {2, 3}, {1, 4}, {1, 5}});
+    // messages of one history are often close in time (same day, neighbouring days): the next timestamp is the previous
+    // one moved by up to 18 hours
+    int64_t lastTs = -1;
+    auto follow = [&](Msg &m) {
+      if (lastTs >= 0 && *range<int>(0, 9) < 5) {
+        int64_t t = lastTs + *range<int64_t>(-36, 36) * 1800 + *range<int64_t>(-2, 2);
+        if (t >= 0 && t <= 4133980799LL) m.ts = t;
+      }
+      lastTs = m.ts;
+    };
     const int sepMode = *rc::gen::weightedElement<int>({{4, 0}, {4, 1}, {1, 2}});
     if (sepMode == 1) { c.def.ctorSep = true; c.def.sep = *pick(kSeps); }
     if (sepMode == 2) { c.def.ctorSep = true; c.def.sep = ""; }
@@ -669,6 +714,7 @@ rc::Gen<Case> genCaseRaw() {
         case E_CLOSE: --depth; break;
         default: {
           e.msg = *genMsg();
+          follow(e.msg);
           for (auto &o : e.msg.own) if (!used.empty() && *range<int>(0, 9) < 7) o.name = used[*range<size_t>(0, used.size() - 1)];
           break;
         }
@@ -685,6 +731,7 @@ rc::Gen<Case> genCaseRaw() {
         Event l;
         l.kind = E_LOG;
         l.msg = *genMsg();
+        follow(l.msg);
         c.events.push_back(l);
       }
     }
@@ -692,6 +739,7 @@ rc::Gen<Case> genCaseRaw() {
       Event l;
       l.kind = E_LOG;
       l.msg = *genMsg();
+      follow(l.msg);
       c.events.push_back(l);
     }
     return c;
@@ -707,11 +755,13 @@ rc::Seq<Case> shrinkCase(const Case &c) {
     for (size_t start = 0; start + block <= n; start += block) {
       Case s;
       s.def = c.def;
+      s.tz = c.tz;
       for (size_t i = 0; i < n; ++i) if (i < start || i >= start + block) s.events.push_back(c.events[i]);
       out.push_back(std::move(s));
     }
     if (block == 1) break;
   }
+  if (c.tz) { Case s = c; s.tz = 0; out.push_back(std::move(s)); }
   for (size_t k = 0; k < c.def.items.size(); ++k) {
     Case s = c;
     s.def.items.erase(s.def.items.begin() + k);
